@@ -1,0 +1,23 @@
+//! Verification hooks, compiled only with the cargo feature `verif-hooks`.
+//!
+//! Read-only accessors for items that are otherwise crate-private; they add no
+//! behaviour and are never used by the library itself.
+
+use super::{GetBitCircuitInfo, circuits};
+
+/// The eleven statically compiled u32 circuits, by name.
+pub fn u32_circuits() -> [(&'static str, &'static dyn GetBitCircuitInfo); 11] {
+    [
+        ("add", &circuits::u32::add_codegen::OUTPUT_CIRCUITS),
+        ("sub", &circuits::u32::sub_codegen::OUTPUT_CIRCUITS),
+        ("sll", &circuits::u32::sll_codegen::OUTPUT_CIRCUITS),
+        ("srl", &circuits::u32::srl_codegen::OUTPUT_CIRCUITS),
+        ("sra", &circuits::u32::sra_codegen::OUTPUT_CIRCUITS),
+        ("slt", &circuits::u32::slt_codegen::OUTPUT_CIRCUITS),
+        ("sltu", &circuits::u32::sltu_codegen::OUTPUT_CIRCUITS),
+        ("and", &circuits::u32::and_codegen::OUTPUT_CIRCUITS),
+        ("or", &circuits::u32::or_codegen::OUTPUT_CIRCUITS),
+        ("xor", &circuits::u32::xor_codegen::OUTPUT_CIRCUITS),
+        ("identity", &circuits::u32::identity_codgen::OUTPUT_CIRCUITS),
+    ]
+}
